@@ -1,6 +1,7 @@
 package sym
 
 import (
+	"runtime"
 	"fmt"
 	"go/constant"
 	"go/token"
@@ -513,6 +514,9 @@ func (fr *frame) runBlocks() {
 			panic(&pathEnd{kind: "inconclusive", reason: fmt.Sprintf("unwinding bound %d exceeded in %s block %d", in.ex.MaxBlockVisits, fr.fn, b.Index)})
 		}
 		in.blocks++
+		if in.blocks&0xfffff == 0 && memoryExceeded() {
+			panic(&pathEnd{kind: "inconclusive", reason: "process memory bound (24 GiB) exceeded: runaway harness or model loop"})
+		}
 	instrs:
 		for _, ins := range b.Instrs {
 			fr.cur = ins
@@ -662,3 +666,12 @@ func (in *Interp) dummyResults(res *types.Tuple) Value {
 }
 
 var dummyType = types.NewNamed(types.NewTypeName(token.NoPos, nil, "verifDummy", nil), types.NewStruct(nil, nil), nil)
+
+// memoryExceeded reports whether the process heap has grown past 24 GiB: a
+// path that appends without bound must end as inconclusive, not take the
+// machine down.
+func memoryExceeded() bool {
+	var m runtime.MemStats
+	runtime.ReadMemStats(&m)
+	return m.HeapAlloc > 24<<30
+}
